@@ -41,7 +41,7 @@ var spxProps = map[string][]string{
 	"C10": {"S3", "S4", "S13"},
 	"C17": {"S1", "S2", "S3", "S4", "S9", "S10", "S13", "S14", "S16", "S17"},
 	"C18": {"S1", "S6", "S12"},
-	"C02": {"S5", "S8"},
+	"C02": {"S5", "S8", "S12"},
 	"C07": {"S8"},
 	"C11": {"S7", "S15"},
 	"C12": {"S5", "S6", "S7", "S8", "S11", "S12", "S15"},
@@ -507,44 +507,58 @@ func spxClientRules(x *spxInst, sc *spxScenario, prop string, add func(rule, sha
 	}
 	switch prop {
 	case "C02":
-		var lastID uint32
-		for _, id := range srv.Order {
-			if id%2 == 0 || id <= lastID {
-				add("stream-id-order", "", fmt.Sprintf("streams opened in the order %v", srv.Order))
-			}
-			lastID = id
+		// per scripted connection: what the script answers on which stream
+		answeredBy := map[int]map[uint32]string{0: answered}
+		if short == "S12" {
+			answeredBy = map[int]map[uint32]string{0: {3: "first", 5: "second", 7: "third"}, 1: {1: "n1", 3: "n2"}}
 		}
 		paths := map[string]int{}
-		for _, id := range srv.Order {
-			st := srv.Streams[id]
-			p := hdrVal(st.Fields, ":path")
-			paths[p]++
-			if paths[p] > 1 {
-				add("request-sent-twice", "", fmt.Sprintf("%s reached the server on %d streams", p, paths[p]))
+		for ci, sv := range h.Conns {
+			var lastID uint32
+			for _, id := range sv.Order {
+				if id%2 == 0 || id <= lastID {
+					add("stream-id-order", "", fmt.Sprintf("connection %d: streams opened in the order %v", ci, sv.Order))
+				}
+				lastID = id
 			}
-		}
-		if srv.HpackErr != "" {
-			add("request-not-intact", "hpack", srv.HpackErr)
-		}
-		if len(srv.ProtoErrs) > 0 {
-			add("request-not-intact", "framing", strings.Join(srv.ProtoErrs, "; "))
+			for _, id := range sv.Order {
+				st := sv.Streams[id]
+				p := hdrVal(st.Fields, ":path")
+				paths[p]++
+				if paths[p] > 1 {
+					add("request-sent-twice", "", fmt.Sprintf("%s reached the servers on %d streams", p, paths[p]))
+				}
+				if p != "/warm" && (short == "S5" || short == "S12") {
+					if hdrVal(st.Fields, ":method") != "POST" || hdrVal(st.Fields, "x-common") != "the-same-value-every-time" || hdrVal(st.Fields, ":scheme") != "https" {
+						add("request-not-intact", "fields", fmt.Sprintf("connection %d stream %d: the server received %v", ci, id, st.Fields))
+					}
+				}
+			}
+			if sv.HpackErr != "" {
+				add("request-not-intact", "hpack", fmt.Sprintf("connection %d: %s", ci, sv.HpackErr))
+			}
+			if len(sv.ProtoErrs) > 0 {
+				add("request-not-intact", "framing", strings.Join(sv.ProtoErrs, "; "))
+			}
 		}
 		for _, cl := range h.Calls {
 			if !cl.Done || cl.Err != nil || cl.Tag == "warm" {
 				continue
 			}
-			// which stream carried this caller's request
-			var sid uint32
-			for _, id := range srv.Order {
-				if hdrVal(srv.Streams[id].Fields, ":path") == "/"+cl.Tag {
-					sid = id
+			// which connection and stream carried this caller's request
+			ci, sid := -1, uint32(0)
+			for i, sv := range h.Conns {
+				for _, id := range sv.Order {
+					if hdrVal(sv.Streams[id].Fields, ":path") == "/"+cl.Tag {
+						ci, sid = i, id
+					}
 				}
 			}
-			want, ok := answered[sid]
+			want, ok := answeredBy[ci][sid]
 			if !ok {
-				add("response-from-nowhere", "", fmt.Sprintf("caller %s (stream %d) reports success with body %q although the server never answered that stream", cl.Tag, sid, cl.Body))
+				add("response-from-nowhere", "", fmt.Sprintf("caller %s (connection %d stream %d) reports success with body %q although the server never answered that stream", cl.Tag, ci, sid, cl.Body))
 			} else if string(cl.Body) != want || cl.Status != 200 {
-				add("wrong-response-delivered", "", fmt.Sprintf("caller %s (stream %d) got %d %q, the server sent 200 %q on that stream", cl.Tag, sid, cl.Status, cl.Body, want))
+				add("wrong-response-delivered", "", fmt.Sprintf("caller %s (connection %d stream %d) got %d %q, the server sent 200 %q on that stream", cl.Tag, ci, sid, cl.Status, cl.Body, want))
 			}
 		}
 	case "C11":
